@@ -90,7 +90,7 @@ impl GitDiff {
     fn build_head_path_map(
         tree: &gix::Tree<'_>,
         prefix: &Path,
-    ) -> Result<HashMap<PathBuf, gix::ObjectId>> {
+    ) -> Result<HashMap<PathBuf, (gix::ObjectId, bool)>> {
         let mut map = HashMap::new();
         Self::build_head_path_map_recursive(tree, prefix, &mut map)?;
         Ok(map)
@@ -99,7 +99,7 @@ impl GitDiff {
     fn build_head_path_map_recursive(
         tree: &gix::Tree<'_>,
         prefix: &Path,
-        map: &mut HashMap<PathBuf, gix::ObjectId>,
+        map: &mut HashMap<PathBuf, (gix::ObjectId, bool)>,
     ) -> Result<()> {
         for entry in tree.iter() {
             let entry = entry
@@ -109,8 +109,9 @@ impl GitDiff {
             let path = prefix.join(name);
 
             match entry.mode().kind() {
-                EntryKind::Blob | EntryKind::BlobExecutable => {
-                    map.insert(path, entry.oid().into());
+                kind @ (EntryKind::Blob | EntryKind::BlobExecutable) => {
+                    let executable = kind == EntryKind::BlobExecutable;
+                    map.insert(path, (entry.oid().into(), executable));
                 }
                 EntryKind::Tree => {
                     let subtree = entry.object().map_err(|e| {
@@ -141,7 +142,7 @@ impl GitDiff {
 
         // Get HEAD tree (if exists) - new repos have no commits yet
         // Use HashMap for O(1) lookup instead of HashSet with O(n) search
-        let head_paths: HashMap<PathBuf, gix::ObjectId> = match repo.head_commit() {
+        let head_paths: HashMap<PathBuf, (gix::ObjectId, bool)> = match repo.head_commit() {
             Ok(commit) => {
                 let head_tree = commit
                     .tree()
@@ -164,10 +165,13 @@ impl GitDiff {
             let path_str = String::from_utf8_lossy(entry.path(&index)).to_string();
             let path = PathBuf::from(&path_str);
 
-            // O(1) lookup instead of O(n) search
+            // O(1) lookup instead of O(n) search; a staged chmod changes the entry as well
+            let executable = entry.mode == gix::index::entry::Mode::FILE_EXECUTABLE;
             let is_staged = head_paths
                 .get(&path)
-                .is_none_or(|head_oid| *head_oid != entry.id);
+                .is_none_or(|(head_oid, head_executable)| {
+                    *head_oid != entry.id || *head_executable != executable
+                });
 
             if is_staged {
                 staged_files.insert(self.workdir.join(&path));
@@ -298,10 +302,10 @@ impl GitDiff {
             let path = prefix.join(name);
 
             if let Some(base_entry) = base_entries.get(name) {
-                // Entry exists in both trees - check if OIDs differ. A symbolic link is stored
-                // as a blob, so a link and a regular file can share an OID: compare that too.
-                if base_entry.oid != target_entry.oid
-                    || is_special(base_entry.kind) != is_special(target_entry.kind)
+                // Entry exists in both trees - check if OIDs or entry kinds (file modes) differ.
+                // The mode lives in the parent tree, not in the object: a chmod leaves the OID
+                // alone, and a symbolic link is stored as a blob and can share one with a file.
+                if base_entry.oid != target_entry.oid || base_entry.kind != target_entry.kind
                 {
                     Self::process_changed_entry(
                         base_entry,
@@ -464,11 +468,6 @@ impl GitDiff {
         }
         Ok(map)
     }
-}
-
-/// Submodules and symbolic links: entries that are not regular files or directories.
-const fn is_special(kind: EntryKind) -> bool {
-    matches!(kind, EntryKind::Commit | EntryKind::Link)
 }
 
 /// Helper struct to hold tree entry data for efficient comparison.
